@@ -245,7 +245,38 @@ func within(lo, hi *big.Int, base []Iv, contiguous bool) bool {
 
 // Anchored compiles an XSD-style pattern (implicitly anchored) for the sub-language on which XSD and RE2 agree.
 func Anchored(p string) *regexp.Regexp {
-	return regexp.MustCompile(`^(?:` + p + `)$`)
+	return regexp.MustCompile(`^(?:` + basicLatin(p) + `)$`)
+}
+
+// basicLatin writes the block escape \p{IsBasicLatin} of XML Schema (which RE2 does not know) as the range it stands for:
+// as a class of its own outside of a bracket expression, as a range inside of one.
+func basicLatin(p string) string {
+	const esc = `\p{IsBasicLatin}`
+	var b strings.Builder
+	inClass := false
+	for i := 0; i < len(p); {
+		switch {
+		case strings.HasPrefix(p[i:], esc):
+			if inClass {
+				b.WriteString(`\x{00}-\x{7F}`)
+			} else {
+				b.WriteString(`[\x{00}-\x{7F}]`)
+			}
+			i += len(esc)
+		case p[i] == '\\' && i+1 < len(p):
+			b.WriteString(p[i : i+2])
+			i += 2
+		default:
+			if p[i] == '[' {
+				inClass = true
+			} else if p[i] == ']' {
+				inClass = false
+			}
+			b.WriteByte(p[i])
+			i++
+		}
+	}
+	return b.String()
 }
 
 // GenPattern draws a pattern from a small regular-expression grammar on which XSD and RE2 agree
